@@ -28,7 +28,7 @@ inductive Stp (a b : Sys) (k : Nat) (st st' : NState) : Prop
       (hboot : Node.boot c st.raft.raftLog.store rnd = .ok (.ok st')) (hnet : b.net = a.net)
 
 /-- every step of the history is such a step -/
-theorem stp_of (H : Hyp2 cfg c0 h) {n : Nat} {a b : Sys} (ha : h[n]? = some a)
+theorem stp_of (H : Hyp2w cfg c0 h) {n : Nat} {a b : Sys} (ha : h[n]? = some a)
     (hb : h[n + 1]? = some b) :
     ∃ k st st', a.node k = some st ∧ b.node k = some st' ∧ (∀ v, v ≠ k → b.node v = a.node v) ∧
       Stp a b k st st' := by
@@ -82,7 +82,7 @@ theorem ev_at_step {E : Ev} (hE : E.ok h) {a b : Sys} (ha : h[E.nE]? = some a)
   omega
 
 /-- **the components for a node that does not step** -/
-theorem sm_other (H : Hyp2 cfg c0 h) {n : Nat} {a b : Sys} (ha : h[n]? = some a)
+theorem sm_other (H : Hyp2w cfg c0 h) {n : Nat} {a b : Sys} (ha : h[n]? = some a)
     (hb : h[n + 1]? = some b) (Sa : Sm h c0 n a) {k : Nat} {stk stk' : NState}
     (hk : a.node k = some stk) (hs : Stp a b k stk stk') {v : Nat} (hvk : v ≠ k) {st : NState}
     (hva : a.node v = some st) :
